@@ -67,6 +67,12 @@ func shardIndex(v9 bool, k ckey) int {
 //	derived-id: ids equal in their low octet (256/512) and ids that are octet-swapped images of
 //	  each other (258/513), all of one exporter.
 func derivedKeys(mode string, v9 bool) []ckey {
+	if mode == "derived-addr" {
+		// exporters that coincide in PART of their address: the same low 32 bits (two IPv6 exporters; an IPv6 one and
+		// an IPv4 one), and - all being IPv6 or not - whatever a key built from To4() or from a truncated address merges
+		return []ckey{{"6a::1/256", net.ParseIP("2001:db8:a::1"), 256}, {"6b::1/256", net.ParseIP("2001:db8:b::1"), 256},
+			{"6::c000:201/256", net.ParseIP("2001:db8::c000:201"), 256}, {"192.0.2.1/256", net.ParseIP("192.0.2.1"), 256}}
+	}
 	if mode == "derived-id" {
 		a := net.ParseIP("192.0.2.1")
 		return []ckey{{"A/256", a, 256}, {"A/512", a, 512}, {"A/258", a, 258}, {"A/513", a, 513}}
@@ -181,6 +187,7 @@ func (e cevent) String(keys []ckey, defs []cdef) string {
 var probeBody = []byte{1, 2, 3, 4}
 
 type cacheEnv struct {
+	sent uint32
 	v9   bool
 	keys []ckey
 	defs []cdef
@@ -200,8 +207,18 @@ func (e *cacheEnv) tpl(k, d int) ref.Template {
 	return ref.Template{ID: e.keys[k].id, Options: len(e.defs[d].scope) > 0, Scope: e.defs[d].scope, Fields: e.defs[d].fields}
 }
 
+// msg: every message of a history carries LOWER header times and sequence numbers than the one before (an
+// exporter whose clock was set back, that rebooted, or whose datagrams are delivered out of order): which
+// template is the latest is decided by arrival at the collector, never by what the exporter's header claims.
 func (e *cacheEnv) msg(sets ...ref.Set) *ref.Msg {
-	return &ref.Msg{V9: e.v9, Hdr: hdrFor(e.v9, 1), Sets: sets}
+	e.sent++
+	h := hdrFor(e.v9, 1)
+	h[1] -= 1000 * e.sent
+	h[2] -= 1000 * e.sent
+	if e.v9 {
+		h[3] -= e.sent
+	}
+	return &ref.Msg{V9: e.v9, Hdr: h, Sets: sets}
 }
 
 // apply runs one event on the real caches; returns the records decoded (for events carrying
@@ -328,7 +345,7 @@ func cacheBFS(tier string) mck.Space {
 	if tier == "thorough" {
 		modes = []string{"thorough-keys", "thorough-defs"}
 	}
-	modes = append(modes, "derived-text", "derived-id", "options", "undecodable")
+	modes = append(modes, "derived-text", "derived-id", "derived-addr", "options", "undecodable")
 	for _, m := range modes {
 		for _, v9 := range []bool{false, true} {
 			if m == "undecodable" {
